@@ -150,7 +150,8 @@ def codegen(crate, features):
     return p.returncode == 0, (p.stdout + p.stderr)
 
 
-CHECK_RE = re.compile(r'^Check (\d+): (.+)\n\t - Status: (\w+)\n\t - Description: "(.*)"\n\t - Location: (.*)$', re.M)
+# the description of a multi-line `assert!` spans several lines
+CHECK_RE = re.compile(r'^Check (\d+): (.+)\n\t - Status: (\w+)\n\t - Description: "([\s\S]*?)"\n\t - Location: (.*)$', re.M)
 
 
 def classify(desc, name):
